@@ -7,6 +7,8 @@ import (
 	"strings"
 
 	"berty.tech/go-ipfs-log/entry"
+	idp "berty.tech/go-ipfs-log/identityprovider"
+	logio "berty.tech/go-ipfs-log/io"
 	orbitdb "berty.tech/go-orbit-db"
 	"berty.tech/go-orbit-db/accesscontroller"
 	"berty.tech/go-orbit-db/iface"
@@ -332,6 +334,169 @@ func malFamily(name string, w *MalformedWorld, tier string) []malCase {
 	return out
 }
 
+// independentlyValid decides, without the code under test, whether a message payload announces exactly one
+// complete, correctly addressed and validly signed head of this database.
+func (w *MalformedWorld) independentlyValid(payload []byte) bool {
+	var msg iface.MessageExchangeHeads
+	if json.Unmarshal(payload, &msg) != nil || len(msg.Heads) != 1 || msg.Heads[0] == nil {
+		return false
+	}
+	h := msg.Heads[0]
+	if msg.Address != w.addr && w.entry != "topic" {
+		return false
+	}
+	if h.Identity == nil || h.Identity.Signatures == nil || h.Clock == nil || len(h.Clock.ID) == 0 || len(h.Key) == 0 || len(h.Sig) == 0 || h.LogID != w.addr {
+		return false
+	}
+	ok := true
+	func() {
+		defer func() {
+			if recover() != nil {
+				ok = false
+			}
+		}()
+		if h.Verify(idp.NewOrbitDBIdentityProvider(&idp.CreateIdentityOptions{}), logio.CBOR()) != nil {
+			ok = false
+			return
+		}
+		c, err := entry.ToMultihashWithIO(bg, h, w.A.Peer.API(), nil, logio.CBOR())
+		if err != nil || c.String() != h.Hash.String() {
+			ok = false
+		}
+	}()
+	return ok
+}
+
+// runFreshHeadFamily: every single-field (and, in thorough, every pair) corruption of a message that
+// announces a head the victim does NOT hold yet, each preceded by a complete valid message (the probe of
+// the previous case). A corrupted message that is not independently valid must not bring the head in.
+func runFreshHeadFamily(c *explore.Ctx, a C12Arg, w *MalformedWorld) {
+	type fld struct{ path []string }
+	fields := []fld{{[]string{"payload"}}, {[]string{"id"}}, {[]string{"next"}}, {[]string{"refs"}}, {[]string{"v"}}, {[]string{"key"}}, {[]string{"sig"}},
+		{[]string{"identity"}}, {[]string{"identity", "id"}}, {[]string{"identity", "publicKey"}}, {[]string{"identity", "signatures"}}, {[]string{"identity", "type"}},
+		{[]string{"hash"}}, {[]string{"clock"}}, {[]string{"clock", "id"}}, {[]string{"clock", "time"}}, {[]string{"#address"}}}
+	variants := []string{"absent", "null", "wrongtype", "empty"}
+	type cse struct {
+		id   string
+		muts [][2]string
+	}
+	var cases []cse
+	for _, f := range fields {
+		for _, v := range variants {
+			cases = append(cases, cse{id: fmt.Sprintf("fresh:%s=%s", strings.Join(f.path, "."), v), muts: [][2]string{{strings.Join(f.path, "."), v}}})
+		}
+	}
+	if c.Spec.Tier == "thorough" {
+		for i, f := range fields {
+			for _, g := range fields[i+1:] {
+				for _, v := range variants {
+					cases = append(cases, cse{id: fmt.Sprintf("fresh:%s=%s,%s=%s", strings.Join(f.path, "."), v, strings.Join(g.path, "."), v),
+						muts: [][2]string{{strings.Join(f.path, "."), v}, {strings.Join(g.path, "."), v}}})
+				}
+			}
+		}
+	}
+	apply := func(m map[string]interface{}, path []string, v string) {
+		for _, p := range path[:len(path)-1] {
+			sub, ok := m[p].(map[string]interface{})
+			if !ok {
+				return
+			}
+			m = sub
+		}
+		k := path[len(path)-1]
+		switch v {
+		case "absent":
+			delete(m, k)
+		case "null":
+			m[k] = nil
+		case "wrongtype":
+			switch m[k].(type) {
+			case string:
+				m[k] = 7
+			case float64:
+				m[k] = "7"
+			default:
+				m[k] = "x"
+			}
+		case "empty":
+			switch m[k].(type) {
+			case string:
+				m[k] = ""
+			case float64:
+				m[k] = 0
+			case []interface{}:
+				m[k] = []interface{}{}
+			default:
+				m[k] = map[string]interface{}{}
+			}
+		}
+	}
+	for idx, cs := range cases {
+		if explore.ReplayOnly != nil {
+			if len(explore.ReplayOnly) == 0 || a.Entry+" "+cs.id != explore.ReplayOnly[0] {
+				continue
+			}
+		} else if a.Chunks > 1 && idx%a.Chunks != a.Chunk {
+			continue
+		}
+		if idx <= c.Spec.ResumeAfter {
+			continue
+		}
+		if c.Expired() {
+			c.Stats.CapsHit = append(c.Stats.CapsHit, fmt.Sprintf("%s: time budget reached at case %d of %d", a.Name(), idx, len(cases)))
+			return
+		}
+		c.JournalCase(idx, a.Entry+" "+cs.id)
+		// a new genuine entry that the victim does not hold
+		w.probes++
+		if err := writeAny(w.sa, fmt.Sprintf("fresh%d", w.probes)); err != nil {
+			c.Stats.HarnessErrs = append(c.Stats.HarnessErrs, err.Error())
+			return
+		}
+		head := w.sa.OpLog().Heads().Slice()[0].(*entry.Entry)
+		valid, _ := json.Marshal(&iface.MessageExchangeHeads{Address: w.addr, Heads: []*entry.Entry{head}})
+		var doc map[string]interface{}
+		_ = json.Unmarshal(valid, &doc)
+		h := doc["heads"].([]interface{})[0].(map[string]interface{})
+		for _, mu := range cs.muts {
+			if mu[0] == "#address" {
+				apply(doc, []string{"address"}, mu[1])
+			} else {
+				apply(h, strings.Split(mu[0], "."), mu[1])
+			}
+		}
+		corrupted, _ := json.Marshal(doc)
+		ok := w.independentlyValid(corrupted)
+		w.FeedMessage(corrupted)
+		c.Stats.Executions++
+		c.Stats.Transitions++
+		c.Stats.Checks++
+		c.Stats.State("C12|" + a.Entry + "|" + cs.id)
+		c.Stats.NontrivialCase(a.Entry + "|" + cs.id)
+		if err := sim.Quiesce(); err != nil {
+			c.Stats.Violate(explore.Violation{Property: "C12", Signature: "hang-after-malformed-input:" + a.Entry, Detail: cs.id, History: []string{a.Entry + " " + cs.id}})
+			return
+		}
+		_, merged := w.sv.OpLog().Get(head.Hash)
+		if merged && !ok {
+			c.Stats.Violate(explore.Violation{Property: "C12", Signature: "incomplete-head-merged:" + a.Entry,
+				Detail: fmt.Sprintf("%s: the message is not a complete valid announcement (checked independently), yet the victim merged the head it names", cs.id), History: []string{a.Entry + " " + cs.id}})
+		}
+		c.Stats.Outcome(fmt.Sprintf("independently-valid=%v merged=%v", ok, merged))
+		// now the complete message: it must be merged (listener alive), and it is what the next corrupted
+		// message follows
+		w.FeedMessage(valid)
+		_ = sim.Quiesce()
+		if _, okm := w.sv.OpLog().Get(head.Hash); !okm {
+			c.Stats.Violate(explore.Violation{Property: "C12", Signature: "listener-dead-after-malformed-input:" + a.Entry, Detail: "after " + cs.id + ": the complete announcement was not merged", History: []string{a.Entry + " " + cs.id}})
+			return
+		}
+		w.expected[head.Hash.String()] = true
+		c.Flush()
+	}
+}
+
 type C12Arg struct {
 	Entry  string
 	Family string
@@ -355,6 +520,11 @@ func runC12Unit(c *explore.Ctx) {
 		return
 	}
 	defer w.Close()
+	if a.Family == "fresh" {
+		runFreshHeadFamily(c, a, w)
+		c.Stats.Outcome("survived")
+		return
+	}
 	cases := malFamily(a.Family, w, c.Spec.Tier)
 	batch := 1
 	if a.Family == "short" {
@@ -440,17 +610,20 @@ func runC12Unit(c *explore.Ctx) {
 func init() {
 	explore.Register(&explore.CheckDef{
 		ID: "C12", Level: "exploration",
-		Rule: "four input families, each enumerated completely and fed to three entry points (topic listener, direct-channel monitor, raw stream frames into the real stream-based direct-channel adapter over an in-memory stream) in crash-isolated workers: (a) every byte string of length <= 2 and every 3-byte string over a 13-symbol JSON alphabet; (b) address x heads shape cross product and every single field and every pair of fields of a real head set to absent/null/wrong type/empty; (c) byte-level mutations of a real message at every position (5 values quick, all 255 thorough) and truncations; (d) frames with boundary, overflowing, over-long and truncated varint lengths x 4 body lengths. Oracle: the worker survives (a crash is attributed to the journalled input), the victim's entries and listing are unchanged, and a fresh valid announcement sent afterwards through the same entry point is merged. Non-trivial = every distinct (entry point, input) pair.",
+		Rule: "four input families, each enumerated completely and fed to three entry points (topic listener, direct-channel monitor, raw stream frames into the real stream-based direct-channel adapter over an in-memory stream) in crash-isolated workers: (a) every byte string of length <= 2 and every 3-byte string over a 13-symbol JSON alphabet; (b) address x heads shape cross product and every single field and every pair of fields of a real head set to absent/null/wrong type/empty; (c) byte-level mutations of a real message at every position (5 values quick, all 255 thorough) and truncations; (d) frames with boundary, overflowing, over-long and truncated varint lengths x 4 body lengths; (e) every single-field (thorough: pair) corruption of a message announcing a head the victim does not hold yet, each sent right after a complete valid message: a corrupted message that is not a complete valid announcement by an independent check must not bring the head in. Oracle: the worker survives (a crash is attributed to the journalled input), the victim's entries and listing are unchanged, and a fresh valid announcement sent afterwards through the same entry point is merged. Non-trivial = every distinct (entry point, input) pair.",
 		Units: func(tier string) []explore.Unit {
 			var u []explore.Unit
 			for _, e := range []string{"topic", "direct", "stream"} {
-				for _, f := range []string{"short", "structure", "bytes", "frames"} {
+				for _, f := range []string{"short", "structure", "bytes", "frames", "fresh"} {
 					if f == "frames" && e != "stream" {
 						continue
 					}
 					chunks := 4
 					if f == "frames" {
 						chunks = 1
+					}
+					if f == "fresh" {
+						chunks = 2
 					}
 					if tier == "thorough" && f == "bytes" {
 						chunks = 12
